@@ -42,6 +42,8 @@ type Contract struct {
 	UsesAtRet   []Clause
 	Ghosts      []ghostDecl
 	Cases       []caseSplit
+	Logicals    []logicalDecl // universally quantified specification variables (fresh at entry)
+	RefusalImp  []Clause      // every refusal (panic) path must satisfy these (entry-state expressions)
 	Flags       map[string]bool
 	HintNames   []string
 	File        string
@@ -64,6 +66,12 @@ type ghostDecl struct {
 type caseSplit struct {
 	Param  string
 	Lo, Hi int
+	Quick  []int // non-empty: the values explored in the quick tier (the thorough tier explores all)
+}
+
+type logicalDecl struct {
+	Name string
+	Kind string // string | int
 }
 
 type Macro struct {
@@ -403,15 +411,35 @@ func parseClause(c *Contract, t string, no int) error {
 		c.Asserts = append(c.Asserts, cl)
 	case "cases":
 		fs := strings.Fields(rest)
-		if len(fs) != 3 {
-			return fmt.Errorf("cases <param> <lo> <hi>")
+		if len(fs) < 3 || (len(fs) > 3 && fs[3] != "quick") {
+			return fmt.Errorf("cases <param> <lo> <hi> [quick v...]")
 		}
 		lo, err1 := strconv.Atoi(fs[1])
 		hi, err2 := strconv.Atoi(fs[2])
 		if err1 != nil || err2 != nil {
 			return fmt.Errorf("cases: bad bounds")
 		}
-		c.Cases = append(c.Cases, caseSplit{fs[0], lo, hi})
+		cs := caseSplit{Param: fs[0], Lo: lo, Hi: hi}
+		for _, q := range fs[min(4, len(fs)):] {
+			v, err := strconv.Atoi(q)
+			if err != nil {
+				return fmt.Errorf("cases: bad quick value")
+			}
+			cs.Quick = append(cs.Quick, v)
+		}
+		c.Cases = append(c.Cases, cs)
+	case "logical":
+		fs := strings.Fields(rest)
+		if len(fs) != 2 || (fs[1] != "string" && fs[1] != "int") {
+			return fmt.Errorf("logical <name> string|int")
+		}
+		c.Logicals = append(c.Logicals, logicalDecl{fs[0], fs[1]})
+	case "refusal_implies":
+		cl, err := mk("")
+		if err != nil {
+			return err
+		}
+		c.RefusalImp = append(c.RefusalImp, cl)
 	case "hint":
 		c.HintNames = append(c.HintNames, strings.Fields(rest)...)
 	case "loop":
@@ -494,4 +522,23 @@ func parseRecDef(s string) (*RecDef, error) {
 	rd.Body = e
 	rd.Src = body
 	return rd, nil
+}
+
+// mentionsLogical: the expression refers to one of the contract's logical variables.
+func (c *Contract) mentionsLogical(x ast.Expr) bool {
+	if len(c.Logicals) == 0 || x == nil {
+		return false
+	}
+	found := false
+	ast.Inspect(x, func(n ast.Node) bool {
+		if id, ok := n.(*ast.Ident); ok {
+			for _, lg := range c.Logicals {
+				if lg.Name == id.Name {
+					found = true
+				}
+			}
+		}
+		return !found
+	})
+	return found
 }
